@@ -19,6 +19,7 @@ import (
 	"go/types"
 	"os"
 	"path/filepath"
+	"reflect"
 	"sort"
 	"strconv"
 	"strings"
@@ -281,6 +282,8 @@ type rewriter struct {
 	inComm    map[ast.Node]bool
 	yieldIn   map[*ast.BlockStmt]bool // blocks (and nested) to receive stmt-level yields
 	yieldCase map[*ast.CaseClause]bool
+	quietLoop map[ast.Node]bool // blocks and case clauses inside loops of the "noloops" files
+	funcOf    map[ast.Node]string // enclosing function of blocks and case clauses
 }
 
 func (rw *rewriter) site(n ast.Node) ast.Expr {
@@ -337,7 +340,53 @@ func (rw *rewriter) run() {
 	rw.inComm = map[ast.Node]bool{}
 	rw.yieldIn = map[*ast.BlockStmt]bool{}
 	rw.yieldCase = map[*ast.CaseClause]bool{}
+	rw.quietLoop = map[ast.Node]bool{}
+	rw.funcOf = map[ast.Node]string{}
 	entry := map[*ast.BlockStmt]bool{}
+	for _, d := range rw.file.Decls {
+		fd, ok := d.(*ast.FuncDecl)
+		if !ok || fd.Body == nil {
+			continue
+		}
+		name := fd.Name.Name
+		if fd.Recv != nil && len(fd.Recv.List) == 1 {
+			t := fd.Recv.List[0].Type
+			if st, ok := t.(*ast.StarExpr); ok {
+				t = st.X
+			}
+			if id, ok := t.(*ast.Ident); ok {
+				name = id.Name + "." + name
+			}
+		}
+		ast.Inspect(fd.Body, func(x ast.Node) bool {
+			switch x.(type) {
+			case *ast.BlockStmt, *ast.CaseClause:
+				rw.funcOf[x] = name
+			}
+			return true
+		})
+	}
+	if rw.sched && yieldEverywhere(rw.pkg.PkgPath, rw.rel) {
+		var mark func(n ast.Node)
+		mark = func(n ast.Node) {
+			ast.Inspect(n, func(x ast.Node) bool {
+				switch x.(type) {
+				case *ast.BlockStmt, *ast.CaseClause:
+					rw.quietLoop[x] = true
+				}
+				return true
+			})
+		}
+		ast.Inspect(rw.file, func(n ast.Node) bool {
+			switch tn := n.(type) {
+			case *ast.ForStmt:
+				mark(tn.Body)
+			case *ast.RangeStmt:
+				mark(tn.Body)
+			}
+			return true
+		})
+	}
 	if rw.sched {
 		ast.Inspect(rw.file, func(n ast.Node) bool {
 			switch tn := n.(type) {
@@ -618,15 +667,368 @@ func (rw *rewriter) post(c *astutil.Cursor) bool {
 	case *ast.SelectStmt:
 		c.Replace(rw.selectStmt(tn))
 	case *ast.BlockStmt:
+		tn.List = rw.withMapProbes(tn.List, rw.quietLoop[tn], rw.funcOf[tn])
 		if rw.yieldIn[tn] {
 			tn.List = rw.withYields(tn.List)
 		}
 	case *ast.CaseClause:
+		tn.Body = rw.withMapProbes(tn.Body, rw.quietLoop[tn], rw.funcOf[tn])
 		if rw.yieldCase[tn] {
 			tn.Body = rw.withYields(tn.Body)
 		}
 	}
 	return true
+}
+
+// ---- rule R8: map access probes ----
+
+func (rw *rewriter) isSlice(e ast.Expr) bool {
+	t := rw.info.TypeOf(e)
+	if t == nil {
+		return false
+	}
+	_, ok := t.Underlying().(*types.Slice)
+	return ok
+}
+
+func (rw *rewriter) varProbe(name string, x ast.Expr, at ast.Node, fn string) ast.Stmt {
+	pos := rw.fset.Position(at.Pos())
+	site := fmt.Sprintf("%s:%s:%s", filepath.Base(pos.Filename), fn, rw.mapName(x))
+	return &ast.ExprStmt{X: call(rw.rt(name), &ast.UnaryExpr{Op: token.AND, X: x}, &ast.BasicLit{Kind: token.STRING, Value: strconv.Quote(site)})}
+}
+
+// tableTypes are the struct types whose slice fields belong to the
+// interpreter's shared tables; slice probes are limited to them and to
+// package-level variables (a probe on every slice field of every object
+// would put a scheduling point into each step of the reader).
+var tableTypes = map[string]bool{"Package": true, "Flavor": true, "StandardClass": true, "Aux": true, "ConditionClass": true}
+
+// sharedSliceExpr reports whether x is a package-level slice variable or a
+// slice field of one of the table types.
+func (rw *rewriter) sharedSliceExpr(x ast.Expr, stmt ast.Stmt) bool {
+	if !rw.isSlice(x) || !addressable(x) || !rw.sharedMapExpr(x, stmt) {
+		return false
+	}
+	switch tx := ast.Unparen(x).(type) {
+	case *ast.Ident:
+		return true // sharedMapExpr accepted it: package-level
+	case *ast.SelectorExpr:
+		if rw.pkgOf(tx.X) != "" {
+			return true
+		}
+		t := rw.info.TypeOf(tx.X)
+		if p, ok := t.(*types.Pointer); ok {
+			t = p.Elem()
+		}
+		if n, ok := types.Unalias(t).(*types.Named); ok {
+			return tableTypes[n.Obj().Name()]
+		}
+	}
+	return false
+}
+
+// addressable reports whether &x compiles for the shared expression x (a
+// selector chain without the Vars() accessor).
+func addressable(x ast.Expr) bool {
+	ok := true
+	ast.Inspect(x, func(n ast.Node) bool {
+		if _, isCall := n.(*ast.CallExpr); isCall {
+			ok = false
+		}
+		return ok
+	})
+	return ok
+}
+
+func (rw *rewriter) isMap(e ast.Expr) bool {
+	t := rw.info.TypeOf(e)
+	if t == nil {
+		return false
+	}
+	_, ok := t.Underlying().(*types.Map)
+	return ok
+}
+
+// sharedMapExpr reports whether x (a map-typed expression) may name a map
+// that is reachable by several routines and can be evaluated a second time
+// before stmt without effect: a chain of field selections (and the Vars()
+// accessor) that starts at a package-level variable or at a variable
+// declared before the statement. A map held directly in a local variable
+// is left alone.
+func (rw *rewriter) sharedMapExpr(x ast.Expr, stmt ast.Stmt) bool {
+	depth := 0
+	for {
+		switch tx := x.(type) {
+		case *ast.ParenExpr:
+			x = tx.X
+		case *ast.StarExpr:
+			x = tx.X
+		case *ast.SelectorExpr:
+			if rw.pkgOf(tx.X) != "" {
+				// pkg.Var
+				_, isVar := rw.info.Uses[tx.Sel].(*types.Var)
+				return isVar
+			}
+			if _, isVar := rw.info.Uses[tx.Sel].(*types.Var); !isVar {
+				return false
+			}
+			depth++
+			x = tx.X
+		case *ast.CallExpr:
+			sel, ok := tx.Fun.(*ast.SelectorExpr)
+			if !ok || len(tx.Args) != 0 || sel.Sel.Name != "Vars" {
+				return false
+			}
+			depth++
+			x = sel.X
+		case *ast.Ident:
+			v, ok := rw.info.Uses[tx].(*types.Var)
+			if !ok {
+				return false
+			}
+			if v.Parent() == v.Pkg().Scope() {
+				return true // package-level
+			}
+			return depth > 0 && v.Pos() < stmt.Pos()
+		default:
+			return false
+		}
+	}
+}
+
+// realCall reports whether ce is a call that runs code (not a conversion or
+// a builtin). Nodes made by earlier rewrites have no type information and
+// count as calls.
+func (rw *rewriter) realCall(ce *ast.CallExpr) bool {
+	if tv, ok := rw.info.Types[ce.Fun]; ok && tv.IsType() {
+		return false
+	}
+	if id, ok := ast.Unparen(ce.Fun).(*ast.Ident); ok {
+		if _, isB := rw.info.Uses[id].(*types.Builtin); isB {
+			return false
+		}
+	}
+	return true
+}
+
+func (rw *rewriter) hasRealCall(n ast.Node) (found bool) {
+	if n == nil {
+		return false
+	}
+	ast.Inspect(n, func(x ast.Node) bool {
+		switch tx := x.(type) {
+		case *ast.FuncLit:
+			return false
+		case *ast.CallExpr:
+			if rw.realCall(tx) {
+				found = true
+			}
+		case *ast.UnaryExpr:
+			if tx.Op == token.ARROW {
+				found = true
+			}
+		}
+		return !found
+	})
+	return
+}
+
+// mapReads returns the map operands read by the header expressions hdr of
+// stmt for which a probe before the statement is exact: the read is not
+// conditional (not in the right operand of && or ||) and no call of the
+// header can run before it.
+func (rw *rewriter) mapReads(stmt ast.Stmt, hdr []ast.Node, skip map[ast.Expr]bool) []ast.Expr {
+	var calls []*ast.CallExpr
+	var reads []*ast.IndexExpr
+	blocked := false
+	for _, h := range hdr {
+		if h == nil || reflect.ValueOf(h).IsNil() {
+			continue
+		}
+		var walk func(n ast.Node, cond bool)
+		walk = func(n ast.Node, cond bool) {
+			ast.Inspect(n, func(x ast.Node) bool {
+				switch tx := x.(type) {
+				case *ast.FuncLit:
+					return false
+				case *ast.BinaryExpr:
+					if tx.Op == token.LAND || tx.Op == token.LOR {
+						walk(tx.X, cond)
+						walk(tx.Y, true)
+						return false
+					}
+				case *ast.CallExpr:
+					if rw.realCall(tx) {
+						calls = append(calls, tx)
+					}
+				case *ast.UnaryExpr:
+					if tx.Op == token.ARROW {
+						blocked = true
+					}
+				case *ast.IndexExpr:
+					if !cond && !skip[tx] && rw.isMap(tx.X) && rw.sharedMapExpr(tx.X, stmt) {
+						reads = append(reads, tx)
+					}
+				}
+				return true
+			})
+		}
+		walk(h, false)
+	}
+	if blocked {
+		return nil
+	}
+	var out []ast.Expr
+	seen := map[string]bool{}
+	for _, r := range reads {
+		ok := true
+		for _, c := range calls {
+			if !c.Lparen.IsValid() || !(c.Lparen < r.Pos() && r.End() <= c.Rparen) {
+				ok = false // the call may run before the read
+				break
+			}
+			// the read is an argument of c: c runs after it - unless the call
+			// is the map operand itself (x.Vars()[k])
+		}
+		if !ok {
+			continue
+		}
+		if rw.hasRealCall(r.Index) {
+			continue
+		}
+		var b bytes.Buffer
+		_ = format.Node(&b, rw.fset, r.X)
+		if !seen[b.String()] {
+			seen[b.String()] = true
+			out = append(out, r.X)
+		}
+	}
+	return out
+}
+
+// mapName names the map of a probe independently of line numbers and of the
+// name of the variable that holds its owner: "<type of the owner>.<field>"
+// for a field, the variable name for a package-level map.
+func (rw *rewriter) mapName(m ast.Expr) string {
+	switch tm := ast.Unparen(m).(type) {
+	case *ast.SelectorExpr:
+		if rw.pkgOf(tm.X) != "" {
+			return tm.Sel.Name
+		}
+		if t := rw.info.TypeOf(tm.X); t != nil {
+			if p, ok := t.(*types.Pointer); ok {
+				t = p.Elem()
+			}
+			if n, ok := types.Unalias(t).(*types.Named); ok {
+				return n.Obj().Name() + "." + tm.Sel.Name
+			}
+		}
+		return tm.Sel.Name
+	case *ast.CallExpr:
+		if sel, ok := tm.Fun.(*ast.SelectorExpr); ok {
+			return sel.Sel.Name + "()"
+		}
+	case *ast.Ident:
+		return tm.Name
+	}
+	return "?"
+}
+
+// A probe's site is "<file>:<function>:<map>" - no line numbers, so that a
+// known finding keeps matching when unrelated lines move.
+func (rw *rewriter) probe(name string, m ast.Expr, at ast.Node, fn string) ast.Stmt {
+	pos := rw.fset.Position(at.Pos())
+	site := fmt.Sprintf("%s:%s:%s", filepath.Base(pos.Filename), fn, rw.mapName(m))
+	return &ast.ExprStmt{X: call(rw.rt(name), m, &ast.BasicLit{Kind: token.STRING, Value: strconv.Quote(site)})}
+}
+
+func (rw *rewriter) withMapProbes(list []ast.Stmt, quiet bool, fn string) []ast.Stmt {
+	wname := "MapW"
+	if quiet {
+		wname = "MapWQ"
+	}
+	out := make([]ast.Stmt, 0, len(list))
+	for _, s := range list {
+		if !s.Pos().IsValid() {
+			out = append(out, s)
+			continue
+		}
+		skip := map[ast.Expr]bool{}
+		var hdr []ast.Node
+		switch ts := s.(type) {
+		case *ast.AssignStmt:
+			if len(ts.Lhs) == 1 && ts.Tok == token.ASSIGN && rw.sharedSliceExpr(ts.Lhs[0], s) && !rw.hasRealCall(ts.Rhs[0]) {
+				vw := "VarW"
+				if quiet {
+					vw = "VarWQ"
+				}
+				out = append(out, rw.varProbe(vw, ts.Lhs[0], s, fn))
+			}
+			for _, l := range ts.Lhs {
+				ix, ok := ast.Unparen(l).(*ast.IndexExpr)
+				if !ok || !rw.isMap(ix.X) || !rw.sharedMapExpr(ix.X, s) {
+					continue
+				}
+				skip[ix] = true
+				simple := !rw.hasRealCall(ix.Index)
+				for _, r := range ts.Rhs {
+					if rw.hasRealCall(r) {
+						simple = false
+					}
+				}
+				if simple {
+					out = append(out, rw.probe(wname, ix.X, s, fn))
+				} else {
+					rw.stats["mapw-skipped"]++
+				}
+			}
+			hdr = append(hdr, ts)
+		case *ast.IncDecStmt:
+			if ix, ok := ast.Unparen(ts.X).(*ast.IndexExpr); ok && rw.isMap(ix.X) && rw.sharedMapExpr(ix.X, s) && !rw.hasRealCall(ix.Index) {
+				skip[ix] = true
+				out = append(out, rw.probe(wname, ix.X, s, fn))
+			}
+		case *ast.ExprStmt:
+			if ce, ok := ts.X.(*ast.CallExpr); ok {
+				if id, ok := ce.Fun.(*ast.Ident); ok && id.Name == "delete" && len(ce.Args) == 2 {
+					if _, isB := rw.info.Uses[id].(*types.Builtin); isB && rw.isMap(ce.Args[0]) &&
+						rw.sharedMapExpr(ce.Args[0], s) && !rw.hasRealCall(ce.Args[1]) {
+						out = append(out, rw.probe(wname, ce.Args[0], s, fn))
+						break
+					}
+				}
+			}
+			hdr = append(hdr, ts.X)
+		case *ast.ReturnStmt:
+			for _, r := range ts.Results {
+				hdr = append(hdr, r)
+			}
+		case *ast.IfStmt:
+			if ts.Init != nil {
+				hdr = append(hdr, ts.Init)
+			}
+			hdr = append(hdr, ts.Cond)
+		case *ast.SwitchStmt:
+			if ts.Init != nil {
+				hdr = append(hdr, ts.Init)
+			}
+			if ts.Tag != nil {
+				hdr = append(hdr, ts.Tag)
+			}
+		case *ast.RangeStmt:
+			if rw.isMap(ts.X) && rw.sharedMapExpr(ts.X, s) {
+				out = append(out, rw.probe("MapR", ts.X, s, fn))
+				ts.Body.List = append([]ast.Stmt{rw.probe("MapR", ts.X, s, fn)}, ts.Body.List...)
+			} else if rw.sharedSliceExpr(ts.X, s) {
+				out = append(out, rw.varProbe("VarR", ts.X, s, fn))
+			}
+		}
+		for _, m := range rw.mapReads(s, hdr, skip) {
+			out = append(out, rw.probe("MapR", m, s, fn))
+		}
+		out = append(out, s)
+	}
+	return out
 }
 
 func (rw *rewriter) withYields(list []ast.Stmt) []ast.Stmt {
